@@ -264,6 +264,28 @@ func (e *Exec) symVerb(fr *frame, p fmtPiece, a Iface) (Str, bool) {
 		}
 		switch p.verb {
 		case 'd', 'v':
+			if zero && width > 0 && width <= 18 && !minus {
+				// %0Nd: when the path condition entails 0 <= v < 10^N the output is exactly N digits (no fork)
+				c := e.ctx
+				v64 := c.Resize(v, 64, k.signed)
+				lim := uint64(1)
+				for i := 0; i < width; i++ {
+					lim *= 10
+				}
+				inside := c.And(c.Cmp(OpSLe, c.Const(64, 0), v64), c.Cmp(OpSLt, v64, c.Const(64, lim)))
+				if e.mergeDepth == 0 && e.solver != nil && e.checkWith(c.Not(inside)) == Unsat {
+					ts := make([]*Term, width)
+					div := uint64(1)
+					for i := width - 1; i >= 0; i-- {
+						d := c.BinBV(OpURem, c.BinBV(OpUDiv, v64, c.Const(64, div)), c.Const(64, 10))
+						ts[i] = c.BinBV(OpAdd, c.Extract(d, 7, 0), c.Const(8, '0'))
+						div *= 10
+					}
+					s = strFromTerms(ts)
+					width = 0
+					break
+				}
+			}
 			var r Value
 			if k.signed {
 				r = e.call(fr, e.eng.stdFunc("strconv", "FormatInt"), []Value{e.ctx.Resize(v, 64, true), mkConst(64, 10)})
